@@ -39,7 +39,7 @@ EXPECTED_PROBES = ["memo_hit_other_target", "interleaved_same_object", "memo_flu
 def plan(tier):
     if tier == "quick":
         return {"runs": 150000, "chunk": 500, "wall_cap": 150}
-    return {"runs": 8000000, "chunk": 2000, "wall_cap": 3000}
+    return {"runs": 8000000, "chunk": 2000, "wall_cap": 900}
 
 
 def prepare(tier):  # pylint: disable=unused-argument
